@@ -7,6 +7,7 @@ CONSTANTS
   Horizon = 2
   HeadCheck = TRUE
   MaxHold = 3
+  CritOn = FALSE
   ExportOn = TRUE
   SampleMod = 8
   MaxAnn = 5
